@@ -34,6 +34,7 @@ def main():
     src = opt("--src", f"/tmp/seed-{prop}")
     checks = opt("--checks", prop).split(",")
     tier = opt("--tier", "quick")
+    base_commit = opt("--base", "HEAD")  # evaluate against an older commit of /repo when a later fix: moved the patch's anchor
     dst = f"/verif/seeded/{prop}-{var}"
     sdir = os.path.join(src, "SEEDED", var)
     if os.path.isdir(sdir):
@@ -47,13 +48,13 @@ def main():
         meta = {"property": prop, "variant": var, "meta_error": str(ex)}
     patch = os.path.join(dst, "patch.diff")
     previous = meta.get("confirmation")
-    conf = {"at_repo_commit": subprocess.check_output("git -C /repo rev-parse --short HEAD", shell=True, text=True).strip(), "when": time.strftime("%Y-%m-%d %H:%M:%S")}
+    conf = {"at_repo_commit": subprocess.check_output(f"git -C /repo rev-parse --short {base_commit}", shell=True, text=True).strip(), "when": time.strftime("%Y-%m-%d %H:%M:%S")}
     base = tempfile.mkdtemp(prefix=f"seedeval-{prop}{var}-", dir="/tmp")
     clean, mut = os.path.join(base, "clean"), os.path.join(base, "mut")
     try:
         for d in (clean, mut):
             os.makedirs(d)
-            rc, out = sh(f"git -C /repo archive HEAD | tar -x -C {d}")
+            rc, out = sh(f"git -C /repo archive {base_commit} | tar -x -C {d}")
             assert rc == 0, out
         rc, out = sh(f"git apply --whitespace=nowarn {patch}", cwd=mut)
         if rc != 0:
